@@ -47,6 +47,7 @@ type vConn struct {
 	nframes int
 	raw     [][]byte
 	torn    bool
+	reset   bool          // the peer is gone (connection reset): every write fails although this side has not closed
 	wrote   chan struct{} // receives a token after every complete frame written by the gateway (buffered)
 }
 
@@ -58,6 +59,9 @@ func (c *vConn) Read(p []byte) (int, error) { return 0, io.EOF }
 func (c *vConn) Write(p []byte) (int, error) {
 	if c.closed {
 		return 0, errors.New("write on closed connection")
+	}
+	if c.reset {
+		return 0, errors.New("write: connection reset by peer")
 	}
 	if len(c.halves) > 0 && !c.halves[len(c.halves)-1].payload {
 		c.torn = true // raw bytes land between the header and the payload of a text frame
@@ -95,6 +99,9 @@ func verifWsWrite(w io.Writer, p []byte) error {
 	c := vConnOf(w)
 	if c.closed {
 		return errors.New("write on closed connection")
+	}
+	if c.reset {
+		return errors.New("write: connection reset by peer")
 	}
 	id := c.nframes
 	c.nframes++
